@@ -63,7 +63,7 @@ def edrv_case(n):
         Claim("loss_nonneg", lambda c: GE(c.post["state.pwr_loss"], 0)),
         Claim("out_le_in_both_directions", out_le_in),
         Claim("dyn_brake_nonneg", lambda c: GE(c.post["state.pwr_mech_dyn_brake"], 0)),
-        Claim("dyn_brake_zero_unless_braking_beyond_regen", lambda c: IMP(GE(_arg(c, 0), -c.pre["state.pwr_mech_regen_max"]), EQ(c.post["state.pwr_mech_dyn_brake"], 0))),
+        Claim("dyn_brake_zero_unless_braking_beyond_regen", lambda c: IMP(XGE(_arg(c, 0), -c.pre["state.pwr_mech_regen_max"]), EQ(c.post["state.pwr_mech_dyn_brake"], 0))),
         Claim("dyn_brake_elec_le_mech", lambda c: LE(c.post["state.pwr_elec_dyn_brake"], c.post["state.pwr_mech_dyn_brake"])),
         Claim("energy_loss_monotone", lambda c: GE(c.post["state.energy_loss"], c.pre["state.energy_loss"])),
         Claim("energy_dyn_brake_monotone", lambda c: GE(c.post["state.energy_mech_dyn_brake"], c.pre["state.energy_mech_dyn_brake"])),
